@@ -131,7 +131,7 @@ class FuncRef:
         self.fn, self.self_val, self.closure = fn, self_val, closure
 
 
-BUILTIN_NAMES = {'getattr', 'hasattr', 'abs', 'set', 'dict', 'list', 'tuple', 'frozenset', 'sorted', 'len', 'isinstance', 'any', 'all', 'bool', 'str', 'int',
+BUILTIN_NAMES = {'float', 'complex', 'bytes', 'callable', 'getattr', 'hasattr', 'abs', 'set', 'dict', 'list', 'tuple', 'frozenset', 'sorted', 'len', 'isinstance', 'any', 'all', 'bool', 'str', 'int',
                  'enumerate', 'zip', 'range', 'print', 'repr', 'min', 'max', 'sum', 'type', 'reversed', 'iter', 'next', 'map',
                  'filter', 'object', 'TypeError', 'ValueError', 'KeyError', 'IndexError', 'NotImplementedError', 'Exception',
                  'AttributeError', 'RuntimeError', 'AssertionError', 'StopIteration'}
@@ -451,7 +451,7 @@ class Interp:
             if isinstance(o, Obj):
                 if o.cls.frozen and fn.name not in ('__init__', '__post_init__'):
                     raise Raised('dataclasses.FrozenInstanceError')
-                setter = o.cls.setters.get(t.attr) if hasattr(o.cls, 'setters') else None
+                setter = self.prog.lookup_setter(o.cls, t.attr)          # (inherited setters included)
                 if setter is not None:
                     self.call_function(setter, [v], {}, self_val=o, depth=depth + 1)
                 else:
@@ -983,6 +983,35 @@ class Interp:
             if callee[1].startswith('itertools.') and type(res_) is list:
                 res_ = _lazy(res_)       # the itertools functions hand out iterators
             return res_
+        if isinstance(callee, tuple) and callee and callee[0] == 'opgetter' and len(args) == 1 and not kwargs:
+            kind, spec = callee[1], callee[2]
+
+            def one(obj, what):
+                if kind == 'attrgetter':
+                    if not isinstance(what, str):
+                        raise Raised('TypeError', 'attribute name must be a string')
+                    for part in what.split('.'):
+                        obj = self.getattr(obj, part, fn, depth)
+                    return obj
+                if kind == 'itemgetter':
+                    if isinstance(obj, dict):
+                        for k_, v_ in obj.items():
+                            if self.equal(k_, what):
+                                return v_
+                        raise Raised('KeyError')
+                    if isinstance(obj, (list, tuple, str)) and isinstance(what, int):
+                        try:
+                            return obj[what]
+                        except IndexError:
+                            raise Raised('IndexError')
+                    raise Undecided('itemgetter')
+                raise Undecided(kind)
+            if kind == 'methodcaller':
+                if not isinstance(spec[0], str):
+                    raise Raised('TypeError', 'method name must be a string')
+                return self.apply(self.getattr(args[0], spec[0], fn, depth), list(spec[1:]), {}, e, fn, depth)
+            vals = [one(args[0], w) for w in spec]
+            return vals[0] if len(vals) == 1 else tuple(vals)
         if isinstance(callee, tuple) and callee and callee[0] == 'ext-bound':
             if len(args) == 1 and isinstance(args[0], str) and not kwargs:
                 return getattr(callee[1], callee[2])(args[0])
@@ -1042,6 +1071,18 @@ class Interp:
                 acc = x if i == 0 else (self.apply(args[1], [acc, x], {}, None, fn, depth + 1) if len(args) == 2 else self.binop(ast.Add(), acc, x))
                 out.append(acc)
             return out
+        if name == 'itertools.groupby' and len(args) in (1, 2) and set(kwargs) <= {'key'}:
+            keyf = args[1] if len(args) == 2 else kwargs.get('key')
+            runs: List[Any] = []
+            for x in self.iterate(args[0]):
+                k = x if keyf is None else self.apply(keyf, [x], {}, None, fn, depth + 1)
+                if runs and self.equal(runs[-1][0], k):
+                    runs[-1][1].append(x)              # consecutive elements with an equal key form one run
+                else:
+                    runs.append((k, GenList([x])))
+            return [tuple(r) for r in runs]
+        if name in ('operator.attrgetter', 'operator.itemgetter', 'operator.methodcaller') and args and not kwargs:
+            return Marker(('opgetter', name.split('.')[1], tuple(args)))
         if name == 'functools.reduce' and len(args) in (2, 3):
             items = self.iterate(args[1])
             if len(args) == 3:
@@ -1079,7 +1120,9 @@ class Interp:
             n = t[1]
             table = {'str': lambda x: isinstance(x, (str, Atom)), 'set': lambda x: isinstance(x, set),
                      'frozenset': lambda x: isinstance(x, frozenset), 'dict': lambda x: isinstance(x, dict),
-                     'list': lambda x: isinstance(x, list), 'tuple': lambda x: isinstance(x, tuple) and not isinstance(x, Marker),
+                     'list': lambda x: isinstance(x, list) and not isinstance(x, (GenList, KeysView)),
+                     'float': lambda x: isinstance(x, float), 'complex': lambda x: isinstance(x, complex),
+                     'bytes': lambda x: isinstance(x, bytes), 'tuple': lambda x: isinstance(x, tuple) and not isinstance(x, Marker),
                      'int': lambda x: isinstance(x, int), 'bool': lambda x: isinstance(x, bool), 'object': lambda x: True}
             if n in table:
                 return table[n](v)
